@@ -34,7 +34,9 @@ type Tape struct {
 }
 
 func NewSearchTape(seed uint64) *Tape {
-	return &Tape{Seed: seed, rng: splitmix64{s: seed*0x9e3779b97f4a7c15 + 0x1234567}}
+	// The state must not be linear in seed with the generator's increment as factor, or consecutive
+	// seeds would read shifted windows of one stream: derive it through the string hash.
+	return &Tape{Seed: seed, rng: splitmix64{s: Hash64("tape", fmt.Sprint(seed))}}
 }
 
 func NewReplayTape(seed uint64, vals []uint32) *Tape {
